@@ -18,6 +18,10 @@ ASSUMPTIONS = ["comparison operators of items are not user callables in the sens
 
 
 def cases(tier, rng):
+    from props import c01
+    for c in c01._tee_cases(tier):        # tee children: items fetched from the source after every single advance
+        if c["srcs"][0]["kind"] != "list":
+            yield c
     yield from s1.base_cases(tier, rng, s1.KINDS_ALL, s1.cons_all_cuts, tools_subset=s1.ITER_TOOLS + ["all", "any"])
     yield from s1.odd_value_cases(tier, rng, s1.KINDS_ALL, 500 if tier == "quick" else 10000, tools_subset=s1.ITER_TOOLS + ["all", "any"])
     yield from s1.impure_fn_cases(tier, rng, s1.KINDS_ALL, tools_subset=s1.ITER_TOOLS, cons_for=s1.cons_all_cuts)
@@ -28,8 +32,33 @@ def _proj(vis, out):
     return [vis, s1._ref_out(out)]
 
 
+def observe(case):  # noqa: F811
+    if case.get("family") == "tee":
+        from props import c01
+        return c01.observe(case)
+    return s1.observe(case)
+
+
+def model_request(case):  # noqa: F811
+    if case.get("family") == "tee":
+        return None          # the schedule-level machine of tee is C09's
+    return s1.model_request(case)
+
+
+def features(case, obs):  # noqa: F811
+    if case.get("family") == "tee":
+        return ["tool=tee", "kind=" + case["srcs"][0]["kind"]]
+    return s1.features(case, obs)
+
+
 def judge(case, obs, model):
     issues = []
+    if case.get("family") == "tee":
+        a, b = obs["tee_async"], obs["tee_sync"]
+        if (a["out"], a["ends"]) == (b["out"], b["ends"]) and a.get("fetched_after") != b.get("fetched_after"):
+            issues.append(Issue("oracle", {"asyncstdlib_fetched_after_each_advance": a.get("fetched_after"),
+                                           "itertools": b.get("fetched_after"), "pattern": case["pattern"]}, "order-differs:tee"))
+        return issues
     ls = list_srcs(case)
     a = strip(obs["async"]["vis"], ls)
     s = strip(obs["sync"]["vis"], ls)
